@@ -23,8 +23,8 @@ TECH = {
     "C13": "runtime monitoring: metamorphic monitor (whole title, two words in either order)",
     "C14": "runtime monitoring: metamorphic monitor (every split point, every single-separator join)",
     "C15": "runtime monitoring: structural invariant monitor over tokeniser output, exhaustive short strings over an adversarial alphabet + random hostile strings",
-    "C16": "runtime monitoring: reference-model monitor (Levenshtein / unrestricted DL bounds, fresh-instance and prefix-cell comparison) through a guarded re-export, exhaustive short words + random long ones in alternating order",
-    "C17": "runtime monitoring: reference-model monitor (set-based Jaccard) through a guarded re-export",
+    "C16": "runtime monitoring: reference-model monitor (Levenshtein / unrestricted DL bounds, fresh-instance and prefix-cell comparison) through a guarded re-export, exhaustive short words + random long ones in alternating order, on shared and per-case instances; thorough adds Miri",
+    "C17": "runtime monitoring: reference-model monitor (set-based Jaccard) through a guarded re-export, exhaustive short sequences + random long ones in alternating order; thorough adds Miri",
     "C18": "runtime monitoring: reference-model monitor of TrigramIndex::prepare (shared-gram counts recomputed from the public tokeniser)",
     "C19": "sanitizers: hook assertions at every unchecked access (row/column individually), std ub_checks in a checked optimised build; thorough adds AddressSanitizer, Miri and coverage-guided fuzzing",
     "C20": "runtime monitoring: history monitor of the registry API against independent per-id model stores; thorough adds the native bridge and Miri",
